@@ -366,11 +366,116 @@ def rule_r4(F, rep):
     rep.trust("sourceannot 0.3: Annotations::render(max_line_no_width, ..) requires max_line_no_width >= self.max_line_no_width()")
 
 
+def _unique_defs(body):
+    defs = {}
+    for bi, blk in enumerate(body.blocks):
+        if blk["cleanup"]:
+            continue
+        for st in blk["s"]:
+            if st["k"] == "assign" and not st["p"]["p"]:
+                defs.setdefault(st["p"]["l"], []).append((bi, st["rv"]))
+        t = blk["t"]
+        if t["k"] == "call" and not t["dst"]["p"]:
+            defs.setdefault(t["dst"]["l"], []).append((bi, {"k": "callres"}))
+    return defs
+
+
+def _field_root(body, defs, x, depth=12, names=None):
+    """follow copies, `+ const`, `<< const`, casts and overflow-checked forms back to the variable they were computed from"""
+    if x.get("k") not in ("move", "copy"):
+        return None
+    names = names if names is not None else body.local_names()
+    l = x["l"]
+    for _ in range(depth):
+        if l in names or l <= body.argc:
+            return l
+        d = defs.get(l, [])
+        if len(d) != 1:
+            return l
+        rv = d[0][1]
+        k = rv["k"]
+        if k == "use" and rv["x"].get("k") in ("move", "copy"):
+            l = rv["x"]["l"]
+            continue
+        if k == "cast" and rv["x"].get("k") in ("move", "copy"):
+            l = rv["x"]["l"]
+            continue
+        if k == "binop" and rv["op"] in ("Add", "AddWithOverflow", "AddUnchecked", "Shl", "ShlUnchecked", "Sub", "SubWithOverflow") \
+                and rv["a"].get("k") in ("move", "copy") and rv["b"].get("k") == "const":
+            l = rv["a"]["l"]
+            continue
+        return l
+    return l
+
+
+def rule_r5(F, rep):
+    R = rep.rule("C16.R5", "a value packed into a bit field of SpanId (`a | b << k`) was compared with a constant bound on the way to "
+                 "the packing site: the test that chooses the inline encoding is made on the very variables that are packed "
+                 "(a global offset checked through the file-local start overflows into the length bits for later files)")
+    n = 0
+    for fn in F.fn_list:
+        if fn.body is None or not fn.loc or not fn.loc.startswith("rsjsonnet-lang/src/span.rs"):
+            continue
+        body = fn.body
+        defs = None
+        for bi, blk in enumerate(body.blocks):
+            if blk["cleanup"]:
+                continue
+            for st in blk["s"]:
+                if st["k"] != "assign" or st["rv"]["k"] != "binop" or st["rv"]["op"] != "BitOr":
+                    continue
+                if defs is None:
+                    defs = _unique_defs(body)
+                ops = [st["rv"]["a"], st["rv"]["b"]]
+                # field packing: one side is a non-constant shifted left
+                shifted = False
+                for x in ops:
+                    if x.get("k") in ("move", "copy"):
+                        d = defs.get(x["l"], [])
+                        if len(d) == 1 and d[0][1]["k"] == "binop" and d[0][1]["op"].startswith("Shl") \
+                                and d[0][1]["a"].get("k") in ("move", "copy"):
+                            shifted = True
+                if not shifted:
+                    continue
+                rep.fn(fn)
+                for x in ops:
+                    root = _field_root(body, defs, x)
+                    if root is None:
+                        continue
+                    n += 1
+                    name = body.local_names().get(root) or "(unnamed temporary)"
+                    guarded = False
+                    for si, sblk in enumerate(body.blocks):
+                        t = sblk["t"]
+                        if sblk["cleanup"] or t["k"] != "switch" or t["x"].get("k") not in ("move", "copy"):
+                            continue
+                        cd = defs.get(t["x"]["l"], [])
+                        if len(cd) != 1 or cd[0][1]["k"] != "binop" or cd[0][1]["op"] not in ("Gt", "Ge", "Lt", "Le"):
+                            continue
+                        a, b = cd[0][1]["a"], cd[0][1]["b"]
+                        var = a if b.get("k") == "const" else b if a.get("k") == "const" else None
+                        if var is None or _field_root(body, defs, var) != root:
+                            continue
+                        for tgt in set(body.succs(si)):
+                            if bi not in cfg.reachable(body.succ_map(), [0], blocked_nodes=[tgt]) and bi != tgt:
+                                guarded = True
+                            if bi == tgt and len([p for p in body.pred_map().get(bi, [])]) == 1:
+                                guarded = True
+                    rep.ob(R, "%s|pack|%s" % (fn.q, name), guarded, {"fn": fn.q, "packed": name, "bounded_before_packing": guarded})
+                    if not guarded:
+                        rep.violation(R, "%s|unbounded-field|%s" % (fn.q, name),
+                                      "%s packs `%s` into a bit field of the span id but no comparison of `%s` with a constant "
+                                      "guards the packing site: a value that does not fit spills into the neighbouring field and "
+                                      "the span decodes to another file or position" % (fn.q, name, name), fn.loc)
+    rep.floor(R, n, 2, "packed span-id fields")
+
+
 def run(F, rep, tier):
     rule_r1(F, rep)
     rule_r2(F, rep)
     rule_r3(F, rep)
     rule_r4(F, rep)
+    rule_r5(F, rep)
     from . import c14
     c14.rule_r8(F, rep)      # error spans end at the lexer cursor (inside the source)
     rep.assume("the SpanId bit-packing round trip, line/column computation and rendering inside `sourceannot` are not decided")
